@@ -166,11 +166,11 @@ Theorem open_inline_scopes_are_reported cur : forall f s, fmt s = FX -> markup_o
   (List.length (sinline s) <= f)%nat ->
   let s' := close_inline_loop f cur s in
   exists ds, diags s' = ds ++ diags s /\ List.length ds = List.length (sinline s) /\
-             Forall (fun d => d_kind d = R "unclosed scope") ds /\ sinline s' = [].
+             Forall (fun d => d_kind d = R "unclosed scope") ds /\ sinline s' = [] /\ quiet s' = false.
 Proof. induction f as [|f IH]; intros s Hf Hm Hp Hq Hl.
-  - cbn. assert (E : sinline s = []) by (destruct (sinline s); [reflexivity|cbn in Hl; lia]). exists []. rewrite E. repeat split; constructor.
+  - cbn. assert (E : sinline s = []) by (destruct (sinline s); [reflexivity|cbn in Hl; lia]). exists []. rewrite E. repeat split; [constructor|exact Hq].
   - cbn [close_inline_loop]. destruct (top (sinline s)) as [sc|] eqn:Et.
-    2:{ pose proof (top_none' _ Et) as E. exists []. rewrite E. cbn. repeat split; constructor. }
+    2:{ pose proof (top_none' _ Et) as E. exists []. rewrite E. cbn. repeat split; [constructor|exact Hq]. }
     set (sm := s <| macro := cur |>).
     destruct (err_not_quiet "unclosed scope" sm Hq) as (d & Ed & Hk). unfold warn_unclosed. rewrite Ed.
     set (s2 := sm <| diags ::= cons d |> <| macro := R "Em" |> <| args := tag_args (sc_tag sc) |>).
@@ -181,16 +181,16 @@ Proof. induction f as [|f IH]; intros s Hf Hm Hp Hq Hl.
     pose proof (QS_macro_em s2q Hf2 eq_refl) as [_ Hd].
     set (s3 := macro_em s2q <| quiet := false |> <| args := [] |>).
     assert (Hsi3 : sinline s3 = pop (sinline s)) by exact Hpop.
-    destruct (IH s3) as (ds & A & B & C & D).
+    destruct (IH s3) as (ds & A & B & C & D & Q).
     + unfold fmt. change (format s3) with (format (macro_em s2q)). rewrite (eqf_get format _ _ (fun _ => eq_refl) F). exact Hf.
     + change (mtags s3) with (mtags (macro_em s2q)). rewrite (mtags_eqf _ _ F). exact Hm.
     + change (process s3) with (process (macro_em s2q)). rewrite (eqf_get process _ _ (fun _ => eq_refl) F). exact Hp.
     + reflexivity.
     + rewrite Hsi3, pop_length'. lia.
-    + cbv zeta in A, B, C, D. exists (ds ++ [d]). rewrite A. change (diags s3) with (diags (macro_em s2q)). rewrite Hd.
+    + cbv zeta in A, B, C, D, Q. exists (ds ++ [d]). rewrite A. change (diags s3) with (diags (macro_em s2q)). rewrite Hd.
       change (diags s2q) with (d :: diags s). rewrite <- app_assoc. split; [reflexivity|].
       split; [rewrite app_length, B, Hsi3, pop_length'; cbn [List.length]; destruct (sinline s) as [|x r]; [discriminate Et|cbn [List.length]; lia]|].
-      split; [apply Forall_app; split; [exact C|constructor; [exact Hk|constructor]]|exact D].
+      split; [apply Forall_app; split; [exact C|constructor; [exact Hk|constructor]]|split; [exact D|exact Q]].
 Qed.
 
 (* ---------- blocks (display blocks, as in the sub-language of FragB.v): macroEd logs nothing under quiet ---------- *)
@@ -311,6 +311,60 @@ Proof. induction f as [|f IH]; intros s HP Hq Hl.
     change (diags s2q) with (d :: diags s). rewrite <- app_assoc. split; [reflexivity|].
     split; [rewrite app_length, B, Hsb3, pop_length; cbn [List.length]; destruct (sblock s) as [|x r]; [discriminate Etop|cbn [List.length]; lia]|].
     split; [apply Forall_app; split; [exact C|constructor; [exact Hk|constructor]]|exact D].
+Qed.
+
+(* the scope-closing part of the end-of-file sweep, composed: inline scopes, the open paragraph, display blocks *)
+Lemma diags_end_par b s : fmt s = FX -> diags (end_par b s) = diags s /\ quiet (end_par b s) = quiet s.
+Proof. intro Hf. unfold end_par. destruct (par s); [|split; reflexivity]. cbv zeta.
+  assert (Hw : forall x y, diags (w x y) = diags y /\ quiet (w x y) = quiet y) by (intros x y; unfold w; destruct (par y); split; reflexivity).
+  destruct (_ && _).
+  - unfold end_stanza. change (fmt (process_paragraph s)) with (fmt s). rewrite Hf. unfold X.end_stanza, X.end_paragraph.
+    set (a := w (R "</span>" ++ NLs) (process_paragraph s)). set (a2 := w (R "</p>" ++ NLs) a).
+    change (diags (a2 <| verse := false |>)) with (diags a2). change (quiet (a2 <| verse := false |>)) with (quiet a2).
+    unfold a2. rewrite (proj1 (Hw _ a)), (proj2 (Hw _ a)). unfold a. rewrite (proj1 (Hw _ _)), (proj2 (Hw _ _)). split; reflexivity.
+  - unfold end_paragraph. change (fmt (process_paragraph s)) with (fmt s). rewrite Hf. unfold X.end_paragraph.
+    destruct b; try (split; reflexivity); rewrite (proj1 (Hw _ _)), (proj2 (Hw _ _)); split; reflexivity.
+Qed.
+
+Theorem sweep_reports_every_open_scope s : P true s -> quiet s = false ->
+  let s' := close_unclosed_block (end_par PNormal (close_unclosed_inline s)) in
+  exists ds, diags s' = ds ++ diags s /\ List.length ds = (List.length (sinline s) + List.length (sblock s))%nat /\
+             Forall (fun d => d_kind d = R "unclosed scope") ds /\ sblock s' = [].
+Proof. intros HP Hq. pose proof HP as (HS & Hsb & Hpr & _).
+  pose proof (sd_fmt _ _ _ _ HS) as Hf. pose proof (sd_mk _ _ _ _ HS) as Hm.
+  (* inline scopes *)
+  assert (H1 : exists d1, diags (close_unclosed_inline s) = d1 ++ diags s /\ List.length d1 = List.length (sinline s) /\
+                 Forall (fun d => d_kind d = R "unclosed scope") d1 /\ quiet (close_unclosed_inline s) = false).
+  { unfold close_unclosed_inline. destruct (sinline s) as [|x l] eqn:Esi; [exists []; repeat split; [constructor|exact Hq]|]. cbv zeta.
+    match goal with |- context [close_inline_loop ?f ?c ?y] =>
+      assert (Hfy : fmt y = FX) by exact Hf; assert (Hmy : markup_ok (mtags y)) by exact Hm; assert (Hpy : process y = true) by exact Hpr;
+      assert (Hqy : quiet y = false) by exact Hq; assert (Hly : (List.length (sinline y) <= f)%nat) by (change (sinline y) with (sinline s); rewrite Esi; cbn; lia);
+      destruct (open_inline_scopes_are_reported c f y Hfy Hmy Hpy Hqy Hly) as (d1 & A & B & C & _ & Qy);
+      assert (Hdy : diags y = diags s) by reflexivity; assert (Hsy : sinline y = x :: l) by exact Esi end.
+    cbv zeta in A, B, Qy. exists d1. rewrite diags_regs, quiet_regs, A, Hdy. split; [reflexivity|]. split; [rewrite B, Hsy; reflexivity|]. split; [exact C|exact Qy]. }
+  destruct H1 as (d1 & A1 & B1 & C1 & Hq1).
+  destruct (close_unclosed_inline_P K BASE MD s HP) as [HP1 Hsi1].
+  pose proof (close_unclosed_inline_eqf s Hf Hm) as F1.
+  set (s1 := close_unclosed_inline s) in *. clearbody s1.
+  (* the paragraph *)
+  destruct (end_par_P K BASE MD s1 HP1 Hsi1) as (HP2 & _ & _ & F2). cbv zeta in HP2, F2.
+  assert (Hf1 : fmt s1 = FX) by exact (sd_fmt _ _ _ _ (proj1 HP1)).
+  destruct (diags_end_par PNormal s1 Hf1) as [D2 Q2].
+  set (s2 := end_par PNormal s1) in *. clearbody s2.
+  (* display blocks *)
+  assert (Hsb2 : sblock s2 = sblock s) by (rewrite (eqf_get sblock _ _ (fun _ => eq_refl) F2), (eqf_get sblock _ _ (fun _ => eq_refl) F1); reflexivity).
+  assert (Hq2 : quiet s2 = false) by (rewrite Q2; exact Hq1).
+  unfold close_unclosed_block. destruct (sblock s2) as [|x l] eqn:Esb.
+  - exists d1. rewrite D2, A1. split; [reflexivity|]. split; [rewrite B1, <- Hsb2; cbn; lia|]. split; [exact C1|exact Esb].
+  - cbv zeta.
+    match goal with |- context [close_block_loop ?f ?c ?y] =>
+      assert (HPy : P true y) by (apply (P_same K BASE MD true _ s2); [destruct s2; reflexivity|reflexivity|reflexivity|reflexivity|exact HP2]);
+      assert (Hqy : quiet y = false) by exact Hq2; assert (Hly : (List.length (sblock y) <= f)%nat) by (change (sblock y) with (sblock s2); rewrite Esb; cbn; lia);
+      destruct (open_blocks_are_reported c f y HPy Hqy Hly) as (d2 & A & B & C & D);
+      assert (Hdy : diags y = diags s2) by reflexivity; assert (Hsy : sblock y = x :: l) by exact Esb end.
+    cbv zeta in A, B, D. exists (d2 ++ d1). rewrite diags_regs, A, Hdy, D2, A1, app_assoc. split; [reflexivity|].
+    split; [rewrite app_length, B, B1, Hsy, <- Hsb2; lia|]. split; [apply Forall_app; split; assumption|].
+    change (sblock (_ <| macro := _ |> <| args := _ |>)) with (sblock (close_block_loop (S (S (List.length (x :: l)))) (macro s2) (s2 <| args := [] |>))). exact D.
 Qed.
 End Blocks.
 Print Assumptions open_conditionals_are_reported.
